@@ -4432,6 +4432,12 @@ class FlowIR(object):
         num_stages = max_stage + 1
 
         if num_stages:
+            # VV: a stage may be identified as N, "N" or "stageN" (see stage_identifier_to_stage_index), use the index
+            status_report = flowir[self.FieldStatusReport]
+            for key in list(status_report):
+                if isinstance(key, int) is False:
+                    status_report[self.stage_identifier_to_stage_index(key)] = status_report.pop(key)
+
             weights = []
             for idx in range(num_stages):
                 if idx not in flowir[self.FieldStatusReport]:
